@@ -1,1 +1,162 @@
 import GolibsVerif.Model.Tmo
+import GolibsVerif.Lemmas.TmoRun
+/-
+Heap-level forms of the C12 theorems, for any heap satisfying the run invariant `Heap.Inv`.
+(Structure: TmoBase → TmoInv → TmoSift → TmoHeapOps → TmoRun → this file.)
+-/
+namespace Tmo
+
+/-- the root of an ordered heap is a minimum -/
+theorem root_min {h : Heap} (O : h.Ordered) : ∀ i, i < h.arr.length → h.fireAt 0 ≤ h.fireAt i := by
+  intro i
+  induction i using Nat.strongRecOn with
+  | _ i ih =>
+    intro hi
+    by_cases h0 : i = 0
+    · subst h0; exact Nat.le_refl _
+    · have a := ih ((i - 1) / 2) (by omega) (by omega)
+      have b := O i (by omega) hi
+      omega
+
+theorem step_undef {h : Heap} (I : h.Inv) (op : Op) (e : (h.step op).2 = .undefined) :
+    ∃ id, op = .cancel id ∧ h.fut.length ≤ id := by
+  rcases step_cases I op with ⟨t, h', _, e', _⟩ | ⟨id, h', _, _, e', _⟩ | ⟨id, o, _, e'⟩ |
+    ⟨id, h', _, _, e', _⟩ | ⟨_, e'⟩ | ⟨_, e'⟩ <;> rw [e'] at e
+  · cases e
+  · cases e
+  · refine ⟨id, o, ?_⟩
+    dsimp only at e
+    split at e
+    · cases e
+    · omega
+  · simp [popOut] at e
+  · cases e
+  · cases e
+
+theorem step_fut_length {h : Heap} (I : h.Inv) (op : Op) :
+    (h.step op).1.fut.length = h.fut.length + (match op with | .add _ => 1 | _ => 0) := by
+  rcases step_cases I op with ⟨t, h', o, e', _, _, d⟩ | ⟨id, h', o, _, e', _, _, d⟩ | ⟨id, o, _, e'⟩ |
+    ⟨id, h', o, _, e', _, _, d⟩ | ⟨o, e'⟩ | ⟨o, e'⟩ <;> rw [e']
+  · subst o; exact fut_length_of_data_append d
+  · subst o; exact clearF_fut_length h id d
+  · subst o; rfl
+  · show h'.fut.length = _
+    rw [Heap.fut_length_congr d]
+    rcases o with rfl | ⟨now, rfl, _⟩ <;> rfl
+  · obtain ⟨now, rfl⟩ := o; rfl
+  · rcases o with rfl | ⟨now, rfl⟩ <;> rfl
+
+/-- Cancel removes exactly that future -/
+theorem cancel_exact {h : Heap} (I : h.Inv) (id : Nat) :
+    ((h.step (.cancel id)).1.pending.Perm (h.pending.filter (·.1 ≠ id))) ∧
+    (∀ j, j ≠ id → ((h.step (.cancel id)).1.get j).map (fun f => (f.fireT, f.hasF)) =
+      (h.get j).map (fun f => (f.fireT, f.hasF))) ∧
+    (id ∉ h.arr → (h.step (.cancel id)).1 = h) := by
+  by_cases hid : id ∈ h.arr
+  · obtain ⟨h', e, I', p, d⟩ := cancel_in I hid
+    rw [e]
+    refine ⟨?_, ?_, fun c => absurd hid c⟩
+    · show h'.pending.Perm _
+      have nd : (id :: h'.arr).Nodup := p.nodup_iff.2 I.1.2.2.1
+      have k : ∀ x, h'.key x = h.key x := by
+        intro x
+        rw [Heap.key_congr d, Heap.key_upd _ _ _ _ (by intro f; rfl)]
+      have e1 : h'.pending = h'.arr.map fun x => (x, h.key x) := by
+        rw [Heap.pending_eq]; apply List.map_congr_left; intro x _; rw [k]
+      have e2 : h.pending.filter (·.1 ≠ id) = (h.arr.filter (· ≠ id)).map fun x => (x, h.key x) := by
+        rw [Heap.pending_eq, List.filter_map]; rfl
+      rw [e1, e2]
+      apply List.Perm.map
+      have p2 := p.filter (· ≠ id)
+      have f1 : (id :: h'.arr).filter (· ≠ id) = h'.arr := by
+        rw [List.filter_cons_of_neg (by simp)]
+        apply List.filter_eq_self.2
+        intro a ha
+        have : a ≠ id := by intro c; subst c; exact (List.nodup_cons.1 nd).1 ha
+        simpa using this
+      rw [f1] at p2; exact p2
+    · intro j hj
+      show (h'.get j).map _ = _
+      rw [Heap.get_congr d, Heap.get_upd, if_neg hj]
+  · rw [cancel_out I.1 hid]
+    refine ⟨?_, fun _ _ => rfl, fun _ => rfl⟩
+    show h.pending.Perm _
+    have : h.pending.filter (·.1 ≠ id) = h.pending := by
+      apply List.filter_eq_self.2
+      intro a ha
+      rw [Heap.pending_eq] at ha
+      obtain ⟨x, hx, rfl⟩ := List.mem_map.1 ha
+      have : x ≠ id := by intro c; subst c; exact hid hx
+      simpa using this
+    rw [this]
+
+/-- add inserts exactly one new pending future -/
+theorem add_exact {h : Heap} (I : h.Inv) (t : Nat) :
+    (h.step (.add t)).2 = .id h.fut.length ∧
+    (h.step (.add t)).1.pending.Perm ((h.fut.length, t) :: h.pending) := by
+  obtain ⟨h', e, I', p, d⟩ := add_spec I t
+  rw [e]
+  refine ⟨rfl, ?_⟩
+  show h'.pending.Perm _
+  have H5 := I.1.2.2.2.2
+  have d' : h'.data = (h.pushRaw t).1.data := by rw [d, Heap.pushRaw_data]
+  have k : ∀ x, h'.key x = (h.pushRaw t).1.key x := fun x => Heap.key_congr d' x
+  have e1 : h'.pending = h'.arr.map fun x => (x, (h.pushRaw t).1.key x) := by
+    rw [Heap.pending_eq]; apply List.map_congr_left; intro x _; rw [k]
+  rw [e1]
+  refine (p.map _).trans ?_
+  rw [List.map_append, List.map_cons, List.map_nil, Heap.pushRaw_key_new h t H5]
+  refine (List.perm_append_singleton _ _).trans ?_
+  apply List.Perm.cons
+  rw [Heap.pending_eq]
+  apply List.Perm.of_eq
+  apply List.map_congr_left
+  intro x hx
+  have : x ≠ h.fut.length := by have := I.1.2.2.2.1 x hx; omega
+  rw [Heap.pushRaw_key h t H5 this]
+
+/-- the watcher never starts a future early, and starts the earliest one -/
+theorem never_early_h {h : Heap} (I : h.Inv) (now id : Nat) (st : Bool)
+    (e : (h.step (.popIfDue now)).2 = .popped id st) :
+    (∃ f, h.get id = some f ∧ f.fireT < now ∧ f.hasF = true ∧ st = true ∧ id ∈ h.arr ∧
+      ∀ p ∈ h.pending, f.fireT ≤ p.2) ∧
+    id ∉ (h.step (.popIfDue now)).1.arr := by
+  rcases step_cases I (.popIfDue now) with ⟨t, h', o, _⟩ | ⟨id', h', o, _⟩ | ⟨id', o, _⟩ |
+    ⟨id', h', o, hd, e', I', p, d⟩ | ⟨_, e'⟩ | ⟨_, e'⟩
+  · cases o
+  · cases o
+  · cases o
+  · rw [e'] at e ⊢
+    simp only [popOut, Out.popped.injEq] at e
+    obtain ⟨rfl, est⟩ := e
+    have due : h.key id' < now := by
+      rcases o with o | ⟨now', o, due⟩
+      · cases o
+      · cases o; exact due
+    have mem : id' ∈ h.arr := p.mem_iff.1 List.mem_cons_self
+    have nd : (id' :: h'.arr).Nodup := p.nodup_iff.2 I.1.2.2.1
+    have hf := I.2.2 id' mem
+    cases g : h.get id' with
+    | none => rw [g] at hf; cases hf
+    | some f =>
+      rw [g] at hf est
+      have hF : f.hasF = true := by simpa using hf
+      have kf : h.key id' = f.fireT := by unfold Heap.key; rw [g]; rfl
+      refine ⟨⟨f, rfl, by omega, hF, ?_, mem, ?_⟩, (List.nodup_cons.1 nd).1⟩
+      · rw [← est]; simpa using hF
+      · intro q hq
+        rw [Heap.pending_eq] at hq
+        obtain ⟨x, hx, rfl⟩ := List.mem_map.1 hq
+        obtain ⟨i, hi, rfl⟩ := List.mem_iff_getElem.1 hx
+        have r := root_min I.2.1 i hi
+        rw [Heap.fireAt_eq h i hi, Heap.fireAt_eq h 0 (by omega)] at r
+        have h0 : h.arr[0]'(by omega) = id' := by
+          have hd' := hd
+          rw [List.head?_eq_getElem?, List.getElem?_eq_getElem (by omega)] at hd'
+          exact Option.some.inj hd'
+        rw [h0, kf] at r
+        exact r
+  · rw [e'] at e; cases e
+  · rw [e'] at e; cases e
+
+end Tmo
